@@ -790,7 +790,7 @@ def plan(prop, tier, seed):
         (e1, a), (e2, b) = short_entries[2 * i], short_entries[2 * i + 1]
         cases.append({"kind": "pairs", "pool": [e1, e2], "lens": [a, b], "hashseeds": hashseeds})
     # -- thread mode
-    for i in range(70 if quick else 1500):
+    for i in range(56 if quick else 1500):
         r = core.stream(core.derive_seed(base, "threads", i), "sched")
         pool = draw_pool(r, 2, 4)
         n_threads = r.choice([2, 3, 4, 8])
